@@ -240,6 +240,19 @@ func genC03(tier string) []Scenario {
 				setEdge(root, ns[from], a, toSpec) // reference: last write wins
 			}
 			h.runFlowOnce(f, "run 1")
+			// re-connections AFTER a run must take effect for the next run (overwrites too)
+			more := core.Choose(3)
+			for i := 0; i < more; i++ {
+				op := core.Choose(12)
+				from, a, to := op/6, acts[(op/3)%2], op%3
+				var toNode flyt.Node
+				var toSpec *spec
+				if to > 0 {
+					toNode, toSpec = real[to-1], ns[to-1]
+				}
+				f.Connect(real[from], a, toNode)
+				setEdge(root, ns[from], a, toSpec)
+			}
 			h.runFlowOnce(f, "run 2")
 		}
 		out = append(out, Scenario{Name: fmt.Sprintf("connect-histories first-op=%d maxlen=%d", first, maxLen), Body: body, Check: stdCheck(func() string {
